@@ -1,0 +1,12 @@
+//go:build verif
+
+package mbapp
+
+import "time"
+
+// Read-only access to the unexported epoch helpers of phasetime.go, for the verification harness.
+
+func VerifPeriod32(units time.Duration) int64            { return period32(units) }
+func VerifLastEvenEpoch(x time.Time, period int64) int64 { return lastEvenEpoch(x, period) }
+func VerifLastOddEpoch(x time.Time, period int64) int64  { return lastOddEpoch(x, period) }
+func VerifNextOddEpoch(x time.Time, period int64) int64  { return nextOddEpoch(x, period) }
